@@ -32,7 +32,11 @@ TRUSTED = ["Coq 8.16.1 kernel",
            "int32 width of offsets (images kept small)"]
 ASSUMPTIONS = ["host is little-endian", "regions lie inside the image (GRwriteimage/GRreadimage do not check this)",
                "the FillValue attribute is set before the image is made chunked / first written",
-               "DFNT_NATIVE number types are outside the domain (their file representation is machine-dependent)"]
+               "DFNT_NATIVE number types are outside the domain (their file representation is machine-dependent)",
+               "an image receives its first write in the session that created it (a partial first write in a later "
+               "session is rejected by the library: fill_img is a per-session flag of GRcreate)",
+               "compressed, non-chunked images are written by one GRwriteimage call and then only read",
+               "GRwritechunk / GRreadchunk are not driven"]
 
 NTS = {3: 1, 4: 1, 20: 1, 21: 1, 22: 2, 23: 2, 24: 4, 25: 4, 5: 4, 6: 8}
 LITEND = 16384
